@@ -56,6 +56,14 @@ def float_order(R, ctx):
             if _is_disallowed(c):
                 R.ob(rid, "%s|%s" % (f["path"].split("::")[-1], c["fname"]), False, ctx.where(f, c.get("ln")),
                      "evaluator uses %s: %s" % (c["fn"], DISALLOWED_FLOAT[c["fname"]]))
+    # epsilon comparisons: Lua's == on numbers is exact IEEE equality
+    for f in lib.fn_list:
+        if not f["path"].startswith("process::evaluator::") or not thir.body_of(f) or "::test" in f["path"]:
+            continue
+        for x in thir.walk(thir.body_of(f)):
+            if x.get("k") == "Const" and x.get("def", "").endswith("::EPSILON"):
+                R.ob(rid, "%s|EPSILON" % f["path"].split("::")[-1], False, ctx.where(f, x.get("ln")),
+                     "evaluator compares numbers within f64::EPSILON: `0.1 + 0.2 == 0.3` folds to true and `(1/0) == (1/0)` to false, Lua says the opposite")
     R.ob(rid, "evaluator-functions-scanned", n >= 25, "", "%d evaluator functions scanned (floor 25)" % n)
 
 
